@@ -1,5 +1,7 @@
-(* A universe of Python values for the cache-key model (C15), with the fragments of Python's ==, <, hash()
-   and sorted() that pipefunc.cache.to_hashable exercises.  Definitions only (facts: Proofs/PyValFacts.v).
+(* A universe of Python values for the cache-key model (C15), with the fragments of Python's ==, hash() and the
+   canonical sort key (pipefunc.cache._sort_key) that pipefunc.cache.to_hashable exercises.  Python's own < is no
+   longer used by to_hashable (it raised on mixed types and is only a partial order on frozensets).
+   Definitions only (facts: Proofs/PyValFacts.v, Proofs/CKeyFacts.v).
 
    Scalars ("atoms") are a separate type so that inductions over values have few cases.
      AFloat q        the float q/4 (small dyadic values, exactly representable also as float32); no NaN/inf
@@ -86,18 +88,6 @@ Definition atom_eq (a b : atom) : bool :=
       end
   end.
 
-Definition atom_lt (a b : atom) : result bool :=
-  match numval a, numval b with
-  | Some x, Some y => Ok (x <? y)%Z
-  | _, _ =>
-      match a, b with
-      | AStr x, AStr y => Ok (str_ltb x y)
-      | ABytes x, ABytes y => Ok (str_ltb x y)
-      | AMasked, _ | _, AMasked | ADigest _ _, _ | _, ADigest _ _ => Err OtherError   (* not modelled, never sorted *)
-      | _, _ => Err TypeError                           (* '<' not supported between instances of ... *)
-      end
-  end.
-
 Definition atom_hashable (a : atom) : bool :=
   match a with AMasked | AOpaque _ _ _ => false | _ => true end.
 
@@ -161,14 +151,15 @@ Fixpoint rel (st : bool) (v w : pyval) {struct v} : bool :=
                 | _, _ => false
                 end) kvs kvs'
          | KCounter, KCounter =>
-             (* Counter.__eq__ (3.10+): all(self[e] == other[e] for c in (self, other) for e in c), a missing
-                count is 0 (keys are pairwise distinct, so "the" item with an equal key is unique) *)
-             forallb (fun kv =>
-                        existsb (fun kv' => rel st (fst kv) (fst kv') && rel st (snd kv) (snd kv')) kvs'
-                        || (is_zero (snd kv) && negb (existsb (fun kv' => rel st (fst kv) (fst kv')) kvs'))) kvs
-             && forallb (fun kv' =>
-                           existsb (fun kv => rel st (fst kv) (fst kv') && rel st (snd kv) (snd kv')) kvs
-                           || (is_zero (snd kv') && negb (existsb (fun kv => rel st (fst kv) (fst kv')) kvs))) kvs'
+             (* Counter.__eq__ (3.10+): all(self[e] == other[e] for c in (self, other) for e in c) where a missing
+                count is 0 - i.e. the two Counters agree as dicts once their zero counts are dropped.  Written as
+                dict.__eq__ (same size, every item found) on the items with a non-zero count. *)
+             Nat.eqb (length (filter (fun kv => negb (is_zero (snd kv))) kvs))
+                     (length (filter (fun kv => negb (is_zero (snd kv))) kvs'))
+             && forallb (fun kv =>
+                           is_zero (snd kv)
+                           || existsb (fun kv' => negb (is_zero (snd kv'))
+                                                  && (rel st (fst kv) (fst kv') && rel st (snd kv) (snd kv'))) kvs') kvs
          | _, _ =>                                       (* dict.__eq__: same size, every item found *)
              Nat.eqb (length kvs) (length kvs')
              && forallb (fun kv => existsb (fun kv' => rel st (fst kv) (fst kv') && rel st (snd kv) (snd kv')) kvs') kvs
@@ -194,39 +185,71 @@ Fixpoint py_hashable (v : pyval) : bool :=
   | _ => false
   end.
 
-(* ---------- < ---------- *)
-(* kinds whose < exists in Python but is not modelled here (they are unhashable, hence never set elements or
-   dict keys, hence never reached by sorted() on a real value): an explicit OtherError, never an answer *)
-Definition exotic (v : pyval) : bool :=
+(* ---------- the canonical sort key: pipefunc.cache._sort_key ----------
+   A total order on hashable values that does not depend on insertion order or hash seed; to_hashable sorts set
+   elements and mapping keys by it.  A key is the Python tuple (tag, payload): ("number", x) | ("str", s) |
+   ("bytes", b) | ("None",) | ("tuple", (keys..)) | ("frozenset", (sorted keys..)) | ("~" + type name, repr).
+   CK tag payload kids: tag and payload as code sequences (for a number the one-element sequence [4*value]),
+   kids for the recursive cases.  ck_ltb is Python's < on these tuples: first the tags (str <), then the
+   payloads (number / str / bytes <), then the kids lexicographically (tuple <). *)
+Inductive ck := CK (tag : list Z) (payload : list Z) (kids : list ck).
+
+Fixpoint ck_eqb (a b : ck) {struct a} : bool :=
+  match a, b with
+  | CK t p ks, CK t' p' ks' =>
+      list_eqb Z.eqb t t' && list_eqb Z.eqb p p'
+      && (fix eqk (l l' : list ck) : bool :=
+            match l, l' with
+            | [], [] => true
+            | x :: r, y :: r' => ck_eqb x y && eqk r r'
+            | _, _ => false
+            end) ks ks'
+  end.
+
+Fixpoint ck_ltb (a b : ck) {struct a} : bool :=
+  match a, b with
+  | CK t p ks, CK t' p' ks' =>
+      lex_ltb t t'
+      || (list_eqb Z.eqb t t'
+          && (lex_ltb p p'
+              || (list_eqb Z.eqb p p'
+                  && (fix lexk (l l' : list ck) : bool :=
+                        match l, l' with
+                        | _, [] => false
+                        | [], _ :: _ => true
+                        | x :: r, y :: r' => ck_ltb x y || (ck_eqb x y && lexk r r')
+                        end) ks ks')))
+  end.
+
+(* sorted(keys) on a list of keys (a total order: any correct sort gives this list) *)
+Fixpoint ck_insert (x : ck) (l : list ck) : list ck :=
+  match l with
+  | [] => [x]
+  | y :: t => if ck_ltb y x then y :: ck_insert x t else x :: l
+  end.
+Definition ck_sort (l : list ck) : list ck := fold_right ck_insert [] l.
+
+Definition tg (x : string) : list Z := codes (s x).
+Arguments tg x%string.
+
+Fixpoint ckey (v : pyval) : ck :=
   match v with
-  | PA _ => false
-  | PSeq (KTuple | KList) _ => false
-  | PSeq _ _ => true
-  | PSetv _ _ => false
-  | PMap KCounter _ => true
-  | PMap _ _ => false
-  | PSeries _ _ _ _ | PFrame _ _ => true
+  | PA a =>
+      match a with
+      | AInt _ | ABool _ | AFloat _ => CK (tg "number") (match numval a with Some z => [z] | None => [] end) []
+      | AStr x => CK (tg "str") (codes x) []
+      | ABytes x => CK (tg "bytes") (codes x) []
+      | ANone => CK (tg "None") [] []
+      | AType n => CK (tg "~type") (codes n) []          (* repr(<class 'n'>) *)
+      | _ => CK (tg "~") [] []                             (* unhashable or key-only atoms: never sorted *)
+      end
+  | PSeq KTuple l => CK (tg "tuple") [] (map ckey l)
+  | PSetv _ l => CK (tg "frozenset") [] (ck_sort (map ckey l))
+  | _ => CK (tg "~") [] []                                 (* unhashable: never a set element or a dict key *)
   end.
 
-Fixpoint py_lt (v w : pyval) {struct v} : result bool :=
-  let lex :=
-    (fix lex (l l' : list pyval) : result bool :=
-       match l, l' with
-       | [], [] => Ok false
-       | [], _ :: _ => Ok true
-       | _ :: _, [] => Ok false
-       | x :: t, y :: t' => if rel false x y then lex t t' else py_lt x y
-       end) in
-  match v, w with
-  | PA a, PA b => atom_lt a b
-  | PSeq KTuple l, PSeq KTuple l' => lex l l'
-  | PSeq KList l, PSeq KList l' => lex l l'
-  | PSetv _ l, PSetv _ l' =>                            (* proper subset - a PARTIAL order *)
-      Ok ((length l <? length l') && forallb (fun a => existsb (fun b => rel false a b) l') l)
-  | _, _ => if exotic v || exotic w then Err OtherError else Err TypeError
-  end.
-
-Definition py_sorted (l : list pyval) : result (list pyval) := py_sort py_lt l.
+(* the comparison sorted(..., key=_sort_key) performs on two elements: never raises *)
+Definition key_lt (a b : pyval) : result bool := Ok (ck_ltb (ckey a) (ckey b)).
 
 (* ---------- well-formed values: what can exist as a Python object of these types ---------- *)
 Fixpoint nodup_by {A} (eqb : A -> A -> bool) (l : list A) : bool :=
@@ -271,6 +294,7 @@ Definition known_factories : list str := [s "int"; s "list"; s "dict"; s "set"; 
 Fixpoint wf (v : pyval) : bool :=
   match v with
   | PA AMasked => false
+  | PA (ADigest _ _) => false             (* a digest only occurs inside keys *)
   | PA _ => true
   | PSeq k l =>
       match k with
